@@ -39,6 +39,7 @@ Choose ==
      \/ task = "pts" /\ \E p \in Pts : first' = p
      \/ task = "transpose" /\ \E r \in 2..4 : first' = <<r>>
      \/ task = "tprod" /\ \E r \in 1..3 : first' = <<r>>
+     \/ task = "expand" /\ \E r \in 1..3 : first' = <<r>>
 
 Compute ==
   /\ pc = "chosen" /\ pc' = "done" /\ UNCHANGED <<task, first>>
@@ -91,6 +92,15 @@ Compute ==
              res' = [t |-> "tprod", ty1 |-> ty1, ty2 |-> ty2, src |-> src,
                      rty |-> [k \in DOMAIN src |-> IF src[k][1] = 1 THEN ty1[src[k][2]] ELSE ty2[src[k][2]]]]
 
+     \/ /\ task = "expand"       \* expand_dims of a collection: a new collection axis at a position up to the number of collection axes
+        /\ LET r == first[1] IN
+           \E ty \in [1..r -> {"free", "cov", "con"}], ax \in (-(r + 1))..r :
+             LET pos == IF ax < 0 THEN ax + r + 1 ELSE ax               \* 0-based position of the new axis
+                 nfree == Cardinality({a \in 1..r : ty[a] = "free"}) IN
+             /\ nfree > 0 /\ nfree < r /\ ty[1] = "free"      \* a collection as the constructors make it, possibly list-indexed afterwards
+             /\ res' = [t |-> "expand", ty |-> ty, ax |-> ax, ok |-> pos <= nfree,
+                        rty |-> [k \in 1..(r + 1) |-> IF k = pos + 1 THEN "free" ELSE IF k <= pos THEN ty[k] ELSE ty[k - 1]]]
+
 Next == Choose \/ Compute
 Spec == Init /\ [][Next]_vars
 
@@ -119,8 +129,17 @@ TensorProductAxes == (Done /\ res.t = "tprod") =>
                                   /\ (res.rty[k] = res.rty[l]) => \/ res.src[k][1] < res.src[l][1]
                                                                    \/ (res.src[k][1] = res.src[l][1] /\ res.src[k][2] < res.src[l][2])
 
+\* the old axes keep their types and their order around the inserted collection axis
+ExpandKeepsTypes == (Done /\ res.t = "expand") =>
+   LET r == Len(res.ty) pos == IF res.ax < 0 THEN res.ax + r + 1 ELSE res.ax IN
+   /\ Len(res.rty) = r + 1 /\ res.rty[pos + 1] = "free"
+   /\ [k \in 1..r |-> IF k <= pos THEN res.rty[k] ELSE res.rty[k + 1]] = res.ty
+
 Stratum == CASE res.t = "tens" -> "tensor/" \o res.kind
              [] res.t = "pts" -> (IF Wt(res.p) = 0 \/ (res.q # <<>> /\ Wt(res.q) = 0) THEN "point-at-infinity" ELSE "finite")
+             [] res.t = "expand" -> (IF ~res.ok THEN "expand_dims/rejected-position"
+                                     ELSE IF \E a, b \in DOMAIN res.ty : a < b /\ res.ty[a] # "free" /\ res.ty[b] = "free"
+                                     THEN "expand_dims/collection-axis-behind-tensor-index" ELSE "expand_dims/leading-collection-axes")
              [] res.t = "tprod" -> (IF \E a \in DOMAIN res.ty1 : \E b \in DOMAIN res.ty1 : a < b /\ res.ty1[a] = "con" /\ res.ty1[b] = "cov"
                                     THEN "tensor_product/first-factor-contravariant-before-covariant"
                                     ELSE IF \E a \in DOMAIN res.ty2 : \E b \in DOMAIN res.ty2 : a < b /\ res.ty2[a] = "con" /\ res.ty2[b] = "cov"
